@@ -121,14 +121,17 @@ Proof.
   apply sp_rret. cbn [length]. congruence.
 Qed.
 
-Lemma sp_read_streams : forall sizes streams, Forall bsr_ok streams -> length sizes = length streams ->
-  sp (read_streams sizes streams) (fun r => Forall bsr_ok r /\ length r = length streams).
+Lemma sp_read_streams : forall proto sizes streams, Forall bsr_ok streams ->
+  length sizes = length streams -> length proto = length streams ->
+  sp (read_streams proto sizes streams) (fun r => Forall bsr_ok r /\ length r = length streams).
 Proof.
-  induction sizes as [|sz sr IH]; intros [|st tr] Hs Hl; try discriminate; cbn [read_streams].
+  induction proto as [|t pr IH]; intros [|sz sr] [|st tr] Hs Hl Hlp; try discriminate; cbn [read_streams].
   - apply sp_rret. split; [constructor|reflexivity].
-  - inversion Hs as [|? ? Hs1 Hs2]; subst. cbn [length] in Hl. injection Hl as Hl.
+  - inversion Hs as [|? ? Hs1 Hs2]; subst. cbn [length] in Hl, Hlp. injection Hl as Hl. injection Hlp as Hlp.
     apply (sp_bind _ _ anyv); [apply spT_rd|intros data _].
-    apply (sp_bind _ _ bsr_ok); [apply sp_rlift; apply bsr_append_ok; exact Hs1|intros st' Hst'].
+    apply (sp_bind _ _ bsr_ok).
+    { destruct (bit_size t =? 0); [apply sp_rret; exact Hs1|apply sp_rlift; apply bsr_append_ok; exact Hs1]. }
+    intros st' Hst'.
     apply (sp_bind _ _ (fun r => Forall bsr_ok r /\ length r = length tr)); [apply IH; assumption|intros r [Hr1 Hr2]].
     apply sp_rret. split; [constructor; assumption|cbn [length]; congruence].
 Qed.
@@ -146,7 +149,7 @@ Proof.
   - destruct (negb (count =? len (q_streams q))); [apply sp_rfail|].
     apply (sp_bind _ _ (fun l => length l = length (q_proto q))); [apply sp_read_sizes|intros sizes Hsz].
     apply (sp_bind _ _ (fun r => Forall bsr_ok r /\ length r = length (q_streams q)));
-      [apply sp_read_streams; [exact Hs|congruence]|intros streams [Hst1 Hst2]].
+      [apply sp_read_streams; [exact Hs|congruence|congruence]|intros streams [Hst1 Hst2]].
     destruct (negb (has_sized (q_proto q))); [apply sp_rfail|].
     pose proof (parse_streams_ok (q_proto q) streams (q_queues q) Hp Hst1 ltac:(congruence) Hl2) as Hps.
     apply (sp_bind _ _ (fun p => Forall bsr_ok (fst p) /\ length (fst p) = length (q_proto q) /\
